@@ -11,12 +11,17 @@ PID = "C06"
 MC_CFG = "INIT MCInit\nNEXT MCNext\nINVARIANT MCInv\nCHECK_DEADLOCK FALSE\n"
 MATRIX_CFG = "INIT MatrixInit\nNEXT MatrixNext\nINVARIANT MatrixEmit\nCHECK_DEADLOCK FALSE\n"
 SEQ_CFG = "INIT SeqInit\nNEXT SeqNext\nINVARIANT SeqEmit\nCHECK_DEADLOCK FALSE\n"
-SOFT = ["SoftNoForgedDelivered", "SoftGenuineAccepted", "SoftBitIdentical", "SoftNothingElse", "SoftDiscardedSilently"]
+# soft invariant of Trace_PacketProt -> name it reports
+SOFT = {"SoftNoForgedDelivered": "ForgedDelivered", "SoftGenuineAccepted": "GenuineRejected", "SoftStaleReadKey": "GenuineRejected_StaleReadKey",
+        "SoftBitIdentical": "NotBitIdentical", "SoftNothingElse": "ExtraPacketDelivered", "SoftDiscardedSilently": "ConnErrorOnUnauthenticated",
+        "SoftNoPanic": "Panic", "DiagShadow": "DiagShadow"}
 
 
-def trace_cfg(diag, stale=True):
+def trace_cfg(diag, without=()):
     s = "INIT TraceInit\nNEXT TraceNext\nINVARIANT TypeOK\n"
-    for i in SOFT + (["SoftStaleReadKey"] if stale else []) + (["DiagShadow"] if diag else []):
+    for i in SOFT:
+        if (i == "DiagShadow" and not diag) or SOFT[i] in without:
+            continue
         s += "INVARIANT %s\n" % i
     return s + "POSTCONDITION TraceAccepted\nCHECK_DEADLOCK FALSE\n"
 
@@ -34,9 +39,9 @@ def signature(rej):
     ev = run[at - 1] if 0 < at <= len(run) else {"ev": "eof"}
     reason = rej["reason"].split()[0]
     if ev.get("ev") == "panic":
-        return "C06/PacketProt/panic/%s" % _slug(ev.get("msg", "")), \
-            "panic in the receive path (%s packet, modified region %s, flipped bit %s of the datagram): %s" % (
-                ev["op"][1], ev["op"][2], ev["op"][3], ev.get("msg", "")[:240])
+        return "C06/PacketProt/panic/%s" % ev.get("phase", "unknown"), \
+            "panic in the code under test during %s (%s; %s occurrence(s) in this step): %s" % (
+                ev.get("phase"), json.dumps(ev.get("op")), ev.get("n", 1), ev.get("msg", "")[:240])
     if ev.get("ev") == "rx":
         what = "%s packet gen=%s pn=%s pn_len=%s tamper=%s keys=%s presented %s time(s): delivered %s, bit-identical %s, extra %s, outcomes %s" % (
             ev["sp"], ev["gen"], ev["pn"], ev["plen"], ev["tamper"], ev["keys"], ev["n"], ev["nacc"], ev["nident"], ev["extra"],
@@ -64,7 +69,7 @@ def _stats(tracefile):
                 continue
             cur.append(line)
             if ev["ev"] == "panic":
-                st["panics"] += 1
+                st["panics"] += ev.get("n", 1)
             if ev["ev"] != "rx":
                 continue
             st["presentations"] += ev["n"]
@@ -90,12 +95,16 @@ def _stats(tracefile):
 
 def _validate(rep, part, trace, diag):
     r = vlib.validate_traces(PID, "Trace_PacketProt", trace_cfg(diag), trace)
-    if len(r["rejected"]) >= 150:
-        # vlib reports at most 200 soft violations per chunk and round: make sure the many hits of one (known) kind do not hide
-        # another kind in a later run -- validate again without the stale-read-key and diagnostic invariants
-        r2 = vlib.validate_traces(PID, "Trace_PacketProt", trace_cfg(False, stale=False), trace)
-        keys = {(json.dumps(x["run"][0], sort_keys=True), x["reason"]) for x in r["rejected"]}
-        r["rejected"] += [x for x in r2["rejected"] if (json.dumps(x["run"][0], sort_keys=True), x["reason"]) not in keys]
+    # vlib reports at most 200 soft violations per chunk and round: make sure the many hits of one kind (e.g. the known one) do
+    # not hide another kind in a later run -- validate again without the invariants that already fired, until nothing new shows
+    seen, last = set(), r["rejected"]
+    for _ in range(4):
+        if len(last) < 150:
+            break
+        seen |= {x["reason"].split()[0] for x in last}
+        r2 = vlib.validate_traces(PID, "Trace_PacketProt", trace_cfg(diag, without=seen), trace)
+        last = r2["rejected"]
+        r["rejected"] += last
     st = _stats(trace)
     # vacuity: the round-trip direction must have been exercised for what the part claims to cover
     need = ([(sp, 0, n) for sp in ("initial", "zerortt", "handshake") for n in (1, 2, 3, 4)] + [("onertt", g, n) for g in (0, 1, 2) for n in (1, 2, 3, 4)]
